@@ -187,12 +187,16 @@ func (c *ClusterNodes) isChanged(allNodes []*ClusterNode) (changed bool) {
 }
 
 func (c *ClusterNodes) setServer(allNodes []*ClusterNode) {
-	for kv := range c.ServerMap.Iter() {
-		c.ServerMap.Del(kv.Key)
-	}
+	// the new set of servers is built in a fresh map that then replaces the old one. Emptying
+	// the old map key by key is not reliable with this hashmap: a deleted key can stay reachable
+	// through the index (or a re-inserted one unreachable) while the map resizes in the
+	// background, and the ticker decides with Get and Iter which pools to close and to create.
+	// The fresh map is large enough never to resize.
+	servers := hashmap.New(uintptr(4*len(allNodes) + 16))
 	for _, m := range allNodes {
-		c.ServerMap.Insert(m.Addr, m)
+		servers.Insert(m.Addr, m)
 	}
+	c.ServerMap = *servers
 	logging.Infof("[cluster loop] set server done")
 	return
 }
